@@ -53,4 +53,8 @@ VARIANTS = [
          edits=[(CORE, "            chunk = self.contract_slice(arrays, o * stepsize, **contract_opts)\n",
                  "            start = o * stepsize\n            chunk = self.contract_slice(arrays, start, **contract_opts)\n"),
                 (CORE, "for ix, x in self.slice_key(o * stepsize).items()", "for ix, x in self.slice_key(start).items()")]),
+    dict(name="round3: sliced_inds shared between a tree and its copy", kind="break",
+         edits=[(CORE, "            \"size_dict\",\n            \"sliced_inputs\",", "            \"size_dict\",\n            \"sliced_inds\",\n            \"sliced_inputs\","),
+                (CORE, "            \"contraction_cores\",\n            \"sliced_inds\",\n", "            \"contraction_cores\",\n")],
+         expect=("C06-COPY", "sliced_inds")),
 ]
